@@ -138,4 +138,6 @@ var PairwiseInstances = []string{
 	`{}`, `{"a":1}`, `{"a":"x"}`, `{"b":1}`, `{"a":1,"b":"s"}`, `{"a":1,"b":2}`, `{"a":4}`, `{"ab":1}`, `{"xa":true}`, `{"xa":1}`, `{"c":null}`,
 	`"2020-01-01"`, `"nope"`, `"a@b.co"`, `["2020-01-01"]`, `["nope"]`, `["2020-01-01","nope"]`, `{"b":"2020-01-01"}`, `{"b":"nope"}`, `{"a":1,"b":"nope"}`, `{"a":1,"b":"2020-01-01"}`, `{"a":"x","b":"a@b.co"}`,
 	`{"a":{"b":1}}`, `{"a":{"b":"x"}}`, `{"a":{"b":1,"c":2}}`, `{"é":"s"}`, `{"é":1,"a":2}`, `{"a":null}`, `{"a":[1,{"b":null}]}`, `{"b":"s","c":null}`,
+	// members named like the schema keywords the object validator treats specially
+	`{"id":1}`, `{"a":1,"$schema":"x"}`, `{"a":{"id":"x","b":1}}`,
 }
